@@ -99,7 +99,7 @@ class C06(Property):
     sys.unraisablehook = lambda *a: None
 
   def budget(self, tier):
-    return (12000, 40.0) if tier == "quick" else (1500000, 900.0)
+    return (80000, 60.0) if tier == "quick" else (12000000, 780.0)
 
   # ---------------------------------------------------------------- workload
   def gen_workload(self, W, index):
